@@ -350,9 +350,13 @@ impl<F: Field> Circuit<F> {
                     let a_aliased_by_out = !out_already_defined && a.0 == out.0;
                     let a_state: F = if a_defined {
                         F::ONE // reader
-                    } else if (private_input_wids.contains(&a.0) || hint_output_wids.contains(&a.0))
-                        && !a_aliased_by_out
-                    {
+                    } else if a_aliased_by_out {
+                        // `out` creates the slot in this very row. `a` must still read it from
+                        // the bus: the row's constraints are on the `a` column (e.g. BoolCheck
+                        // a*(a-1)=0 with a = out a fresh private input or hint output), and an
+                        // `a` cell that is not on the bus is not tied to the value `out` sends.
+                        F::ONE // reader of the value created by `out` in this row
+                    } else if private_input_wids.contains(&a.0) || hint_output_wids.contains(&a.0) {
                         F::TWO // creator (private input or hint output)
                     } else {
                         F::ZERO // skip
